@@ -265,7 +265,21 @@ def r4(ctx, rep):
                 return True
         return False
 
+    folded_expr = folded
+
     for f in fns:
+        # an intermediate binding stands for its initialiser: `let keys = fold.fold_cids(partition)?; .. partition: keys`
+        inits = {}
+        for n in walk(f["body"]):
+            if n.get("k") == "local" and n.get("init") is not None and n["pat"].get("k") == "p_ident":
+                inits.setdefault(n["pat"]["n"], []).append(n["init"])
+
+        def folded(expr, depth=0, _inits=inits):
+            if folded_expr(expr):
+                return True
+            if depth < 3 and expr.get("k") == "path" and expr["p"] in _inits:
+                return all(folded(i_, depth + 1) for i_ in _inits[expr["p"]])
+            return False
         for n in walk(f["body"]):
             if n.get("k") != "struct":
                 continue
@@ -1190,6 +1204,83 @@ def r19(ctx, rep):
               f"BreakUp::break_up returns (front, back) = (self, {second}); found `{show(t) if t else None}`", line=bu["l"], **loc)
 
 
+FOLD_FILES = ("ir/rq/fold.rs", "sql/pq/ast.rs", "ir/pl/fold.rs")
+
+
+def r20(ctx, rep):
+    """The generic folders (RQ, PQ and PL) are what every pass of the compiler is built on: redirecting column ids at a split, loading ids,
+    resolving names, flattening. A folder that rebuilds `Take{partition, sort, range}` with two fields exchanged, or turns a `Filter` arm into
+    a `Select`, changes the query for every pass at once. Each arm must rebuild the variant it matched and each field initialiser must be
+    made from the field of the same name."""
+    rep.rule("C01.R20", "generic folders are homomorphic: an arm that matches variant V rebuilds V (or passes the value on whole); "
+             "a field initialiser `f: e` of a rebuilt struct is made from the field / binding `f`", floor=150)
+    syn = ctx.syn
+    n_arm = n_field = 0
+    for f in syn.fns:
+        if not (f["crate"] == "prqlc" and f["file"].endswith(FOLD_FILES) and "body" in f and f["name"].startswith("fold")):
+            continue
+        loc = dict(file=f["file"], fn=f["path"])
+        inits = {}
+        for n in walk(f["body"]):
+            if n.get("k") == "local" and n.get("init") is not None and n["pat"].get("k") == "p_ident":
+                inits.setdefault(n["pat"]["n"], []).append(n["init"])
+        for n in walk(f["body"]):
+            if n.get("k") != "struct":
+                continue
+            for fname, fval in n["f"]:
+                n_field += 1
+                names = set()
+
+                def collect(e, depth=0):
+                    for x in walk(e):
+                        if x.get("k") == "field":
+                            names.add(x["f"])
+                        if x.get("k") == "path":
+                            nm = last_seg(x["p"])
+                            names.add(nm)
+                            # an intermediate binding (`let p = fold.fold_cids(partition)?; .. partition: p`) stands for its initialiser
+                            if depth < 3 and nm in inits and nm != fname:
+                                for i_ in inits[nm]:
+                                    collect(i_, depth + 1)
+                collect(fval)
+                rep.check(fname in names, f"field:{f['name']}:{last_seg(n['p'])}.{fname}", f"{f['name']} rebuilds `{last_seg(n['p'])}` with `{fname}: {show(fval, maxdepth=6)}`: "
+                          f"the value is not made from the field `{fname}` of what is being folded", line=n["l"], **loc)
+        for m in matches_of(f["body"]):
+            for a in m["arms"]:
+                alts = pat_alts(a["pat"])
+                if len(alts) != 1:
+                    continue
+                inner = alts[0]
+                whole = None
+                while inner.get("k") == "p_ident" and inner.get("sub") is not None:
+                    whole = inner["n"]
+                    inner = inner["sub"]
+                h = pat_head(inner)
+                if not isinstance(h, str) or not last_seg(h)[:1].isupper():
+                    continue
+                v = last_seg(h)
+                b = a["body"]
+                if b.get("k") == "block":
+                    b = tail_expr(b) or b
+                while b.get("k") in ("try", "paren") or (b.get("k") == "call" and show(b["f"]) == "Ok" and len(b["a"]) == 1):
+                    b = b["e"] if b.get("k") in ("try", "paren") else b["a"][0]
+                head = None
+                if b.get("k") == "call":
+                    head = last_seg(show(b["f"]))
+                elif b.get("k") == "struct":
+                    head = last_seg(b["p"])
+                elif b.get("k") == "path":
+                    head = last_seg(b["p"])
+                else:
+                    continue
+                if not head[:1].isupper() and head not in (whole, show(m["e"])):
+                    # a helper call (`fold_x(..)`) or a local: not a rebuild in place
+                    continue
+                n_arm += 1
+                rep.check(head == v or head in (whole, show(m["e"])), f"arm:{f['name']}:{v}", f"{f['name']}: the arm for `{v}` yields `{show(b, maxdepth=4)[:80]}`", line=a["l"], **loc)
+    rep.check(n_arm >= 60 and n_field >= 100, "sites", f"expected >= 60 rebuilding arms and >= 100 field initialisers in {FOLD_FILES}, found {n_arm} / {n_field}")
+
+
 def run(ctx, rep):
-    for r in (r1, r2, r3, r4, r5, r6, r7, r8, r9, r10, r11, r12, r13, r14, r15, r16, r17, r18, r19):
+    for r in (r1, r2, r3, r4, r5, r6, r7, r8, r9, r10, r11, r12, r13, r14, r15, r16, r17, r18, r19, r20):
         rep.guard(r, ctx)
